@@ -331,7 +331,8 @@ def flatten(script):
     raise GrammarError("start out of range")
   first = True
   prev_style = None
-  left = leftovers(script["caps"])
+  left_overlap = []
+  left = leftovers(script["caps"], left_overlap)
   paint_tops = []
   block = set()
   still_painted = set()
@@ -365,7 +366,10 @@ def flatten(script):
       em.code(enc_ctl("RCL"), "RCL", "RCL" in single)
       if left[ci]:
         flat.labels.add("pop:load-over-leftover")
-        if flat.unassert_from is None:
+        if not left_overlap[ci]:
+          # the older caption sits on other rows: the load adds rows to it, which is asserted
+          flat.labels.add("pop:load-over-leftover:other-rows")
+        elif flat.unassert_from is None:
           flat.unassert_from = len(flat.words)
       for r in rows:
         if r.get("brk") is not None:
@@ -840,31 +844,34 @@ def normalise(caps, prof, draw=None):
   return caps
 
 
-def leftovers(caps):
-  """for each caption: True when it is a pop-on load that starts (no ENM) while non-displayed memory still holds an older caption"""
+def leftovers(caps, rows_out=None):
+  """for each caption: True when it is a pop-on load that starts (no ENM) while non-displayed memory still holds an older caption.
+  rows_out, when given, receives for each caption True when that older caption may occupy one of the rows the load addresses
+  (memories are tracked as sets of row numbers; None = rows not tracked, e.g. what a roll-up or paint-on caption left displayed)"""
   out = []
-  disp = nond = False
-  mode = None
+  disp = nond = frozenset()
   for cap in caps:
     left = False
+    overlap = False
     if cap["style"] == "pop":
       if cap.get("enm"):
-        nond = False
-      left = nond
-      nond = True
+        nond = frozenset()
+      left = nond is None or len(nond) > 0
+      mine = frozenset(r["row"] for r in cap["rows"])
+      overlap = left and (nond is None or bool(nond & mine))
+      nond = None if nond is None else nond | mine
       if cap.get("edm_pre"):
-        disp = False
+        disp = frozenset()
       disp, nond = nond, disp
-    elif cap["style"] == "roll":
+    else:
       # (RU2-4 coming from pop-on/paint-on erases both memories, but a load without ENM after such a switch is still classified
       # as leftover: conservative, keeps the main class to what every encoder does)
-      disp = True
-    else:
-      disp = True
-    mode = cap["style"]
+      disp = None
     if cap.get("edm") is not None:
-      disp = False
+      disp = frozenset()
     out.append(left)
+    if rows_out is not None:
+      rows_out.append(overlap)
   return out
 
 
